@@ -7,12 +7,14 @@ import (
 	"go/parser"
 	"go/token"
 	"os"
+	"os/exec"
 	"path/filepath"
 	"reflect"
 	"regexp"
 	"sort"
 	"strings"
 	"sync"
+	"sync/atomic"
 	"testing"
 
 	"github.com/vapourismo/knx-go/knx/dpt"
@@ -272,6 +274,9 @@ func c19Run(p c19Plan) *common.Fail {
 		for _, f := range c19Static() {
 			return f // only known ones left
 		}
+	case "cold-start":
+		f, _ := c19ColdStarts(60)
+		return f
 	case "lookup":
 		return c19Lookup(p.Name)
 	case "hammer":
@@ -422,6 +427,94 @@ func c19Run(p c19Plan) *common.Fail {
 	return nil
 }
 
+// TestC19ColdChild is the body of one cold-start process (see c19ColdStarts): the very first Produce calls of the
+// process come from 16 goroutines that leave a spin barrier together; each asks for every listed name. It does
+// nothing unless VERIF_C19_COLD is set.
+func TestC19ColdChild(t *testing.T) {
+	if os.Getenv("VERIF_C19_COLD") == "" {
+		t.Skip("child of the cold-start check")
+	}
+	names := dpt.ListSupportedTypes()
+	sort.Strings(names)
+	const g = 16
+	var ready, bad int32
+	var wg sync.WaitGroup
+	msgs := make([]string, g)
+	for k := 0; k < g; k++ {
+		wg.Add(1)
+		go func(k int) {
+			defer wg.Done()
+			atomic.AddInt32(&ready, 1)
+			for atomic.LoadInt32(&ready) < g {
+			}
+			for i := range names {
+				n := names[(i*7+k*11)%len(names)]
+				d, ok := dpt.Produce(n)
+				if !ok || d == nil {
+					atomic.AddInt32(&bad, 1)
+					msgs[k] = fmt.Sprintf("goroutine %d: Produce(%q) = (%v, %v) for a listed name", k, n, d, ok)
+					return
+				}
+				if tn, want := reflect.TypeOf(d).Elem().Name(), "DPT_"+strings.ReplaceAll(n, ".", ""); tn != want {
+					atomic.AddInt32(&bad, 1)
+					msgs[k] = fmt.Sprintf("goroutine %d: Produce(%q) yields a %s", k, n, tn)
+					return
+				}
+			}
+		}(k)
+	}
+	wg.Wait()
+	if bad > 0 {
+		for _, m := range msgs {
+			if m != "" {
+				fmt.Println("COLD-START-FAILURE: " + m)
+			}
+		}
+		os.Exit(7)
+	}
+}
+
+// c19ColdStarts runs n fresh processes of this test binary, each executing TestC19ColdChild: state that is built
+// lazily on first use is only ever built once per process, so "any interleaving of Produce calls" includes the
+// interleavings of the first calls, and those can only be sampled one per process.
+func c19ColdStarts(n int) (*common.Fail, int) {
+	type res struct {
+		out string
+		err error
+	}
+	ch := make(chan res, n)
+	sem := make(chan struct{}, 6)
+	for i := 0; i < n; i++ {
+		go func() {
+			sem <- struct{}{}
+			defer func() { <-sem }()
+			cmd := exec.Command(os.Args[0], "-test.run", "^TestC19ColdChild$", "-test.count", "1")
+			cmd.Env = append(os.Environ(), "VERIF_C19_COLD=1")
+			out, err := cmd.CombinedOutput()
+			ch <- res{string(out), err}
+		}()
+	}
+	var first *common.Fail
+	ran := 0
+	for i := 0; i < n; i++ {
+		r := <-ch
+		ran++
+		if r.err != nil && first == nil {
+			tail := r.out
+			if i := strings.Index(tail, "COLD-START-FAILURE"); i >= 0 {
+				tail = tail[i:]
+			} else if i := strings.Index(tail, "fatal error"); i >= 0 {
+				tail = tail[i:]
+			}
+			if len(tail) > 600 {
+				tail = tail[:600]
+			}
+			first = common.Failf("cold-start", "a fresh process whose first Produce calls come from 16 goroutines at once went wrong (%v): %s", r.err, tail)
+		}
+	}
+	return first, ran
+}
+
 func TestC19(t *testing.T) {
 	rec := common.NewRec("C19", os.Getenv("VERIF_JOBNAME"))
 	if rec.Env.Job == "" {
@@ -433,6 +526,20 @@ func TestC19(t *testing.T) {
 		common.ReplayOnly(t, rec, c19Run)
 		completed = true
 		return
+	}
+	// cold starts first (separate processes; nothing in this one has been produced yet either)
+	if rec.Env.Shard == 0 && rec.Env.Job == "dpt" {
+		n := 40
+		if rec.Env.Thorough() {
+			n = 400
+		}
+		f, ran := c19ColdStarts(n)
+		rec.Eval(int64(ran))
+		rec.NonTrivialEnum(int64(ran))
+		rec.ClassN("cold-start-processes", int64(ran))
+		if f != nil {
+			common.Report(t, rec, f, c19Plan{Mode: "cold-start"})
+		}
 	}
 	types := allTypes()
 	names := dpt.ListSupportedTypes()
